@@ -11,7 +11,7 @@ import builtins
 import os
 import symtable
 
-from sa.canon import canonicalise, literal_tables
+from sa.canon import canonicalise, literal_tables, module_defs
 import sys
 from dataclasses import dataclass, field
 
@@ -275,8 +275,9 @@ class Project:
             t = literal_tables(m.tree)
             if t:
                 global_tables[name] = t
+        global_defs = {name: module_defs(m.tree) for name, m in self.modules.items()}
         for m in self.modules.values():
-            for k, v in canonicalise(m.tree, global_tables).items():
+            for k, v in canonicalise(m.tree, global_tables, global_defs, m.name, m.is_package).items():
                 self.canon_counts[k] = self.canon_counts.get(k, 0) + v
             set_parents(m.tree)
         # namespace packages (directories without __init__.py)
